@@ -169,6 +169,25 @@ func corpusFor(c *Ctx) []*corpus.Program {
 // generated injector whose event structure could be extracted.
 func forEachInjector(c *Ctx, progs []*corpus.Program, fn func(ic *InjCase)) (*injStats, error) {
 	st := &injStats{funcs: map[string]bool{}, confirmed: map[string]string{}}
+	{
+		// stated bounds: the program dimension is this enumeration, nothing else
+		fam := map[string]int{}
+		maxProv := 0
+		for _, p := range progs {
+			fam[p.Family]++
+			for _, d := range p.Decls {
+				if len(d.Provs) > maxProv {
+					maxProv = len(d.Provs)
+				}
+			}
+		}
+		c.Coverage["bounds"] = map[string]any{
+			"programs_per_family":           fam,
+			"max_providers_per_declaration": maxProv,
+			"schedules":                     "all (one clock per event: every interleaving, provider latency and select choice of each enumerated injector is decided by the solver)",
+			"outside":                       "declarations not in the enumerated families; providers that panic or never return; the x/sync errgroup and context implementations (stubbed by their contract)",
+		}
+	}
 	t0 := time.Now()
 	pipe, err := pipeline.New(c.ID)
 	if err != nil {
